@@ -50,4 +50,42 @@ __attribute__((noinline)) void h_e2_mantissa(void) {
   __verif_check((x < y) == (mx < my));
   __verif_check((x == y) == (mx == my));
 }
+
+// E4 (Engine B, real-model reading): the floating-point filter of orient3d_adaptive.  In the exact-real reading of the code,
+// whenever the filter answers by itself (without deferring to orient3d_exact on the SAME four points) the true determinant D of the
+// difference vectors lies on the answered side by at least C4 * P, where P is the permanent (the determinant's six triple products with
+// absolute values).  C4 = 7e-16 exceeds the standard forward error bound gamma_5 = 5u/(1-5u) = 5.6e-16 (u = 2^-53) of ANY cofactor
+// evaluation of a 3x3 determinant whose entries are exact (differences of [1,2) numbers are exact), and lies below Shewchuk's static
+// filter constant 7.77e-16, so a correct tight filter passes and a bound that forgets or misplaces a term does not.
+#define C4 7.e-16
+__attribute__((noinline)) void h_e4_orient_filter(void) {
+  // the points are written as d + (difference) so that, in the real reading, the code's own differences simplify to the 9 free
+  // difference symbols (every a, d in [1,2) is of this form: no loss of generality over the reals)
+  const CoordinateVector<> d = pt(), u = pt(), v = pt(), w = pt();
+  const CoordinateVector<> a(d.x() + u.x(), d.y() + u.y(), d.z() + u.z()), b(d.x() + v.x(), d.y() + v.y(), d.z() + v.z()), c(d.x() + w.x(), d.y() + w.y(), d.z() + w.z());
+  __CPROVER_assume((a.x() >= 1.) & (a.x() < 2.) & (a.y() >= 1.) & (a.y() < 2.) & (a.z() >= 1.) & (a.z() < 2.) & (b.x() >= 1.) & (b.x() < 2.) & (b.y() >= 1.) & (b.y() < 2.) & (b.z() >= 1.) & (b.z() < 2.) &
+                   (c.x() >= 1.) & (c.x() < 2.) & (c.y() >= 1.) & (c.y() < 2.) & (c.z() >= 1.) & (c.z() < 2.) & (d.x() >= 1.) & (d.x() < 2.) & (d.y() >= 1.) & (d.y() < 2.) & (d.z() >= 1.) & (d.z() < 2.));
+  const int s = ExactGeometricTests::orient3d_adaptive(a, b, c, d);
+  const int sx = ExactGeometricTests::orient3d_exact(a, b, c, d);
+  const double adx = a.x() - d.x(), ady = a.y() - d.y(), adz = a.z() - d.z(), bdx = b.x() - d.x(), bdy = b.y() - d.y(), bdz = b.z() - d.z(), cdx = c.x() - d.x(), cdy = c.y() - d.y(), cdz = c.z() - d.z();
+  // reference determinant, expanded along the FIRST row (the code expands along the z column)
+  const double D = adx * (bdy * cdz - bdz * cdy) - ady * (bdx * cdz - bdz * cdx) + adz * (bdx * cdy - bdy * cdx);
+  const double P = (fabs(bdx * cdy) + fabs(cdx * bdy)) * fabs(adz) + (fabs(cdx * ady) + fabs(adx * cdy)) * fabs(bdz) + (fabs(adx * bdy) + fabs(bdx * ady)) * fabs(cdz);
+  __verif_check((s == sx) | ((s == 1) & (D >= C4 * P)) | ((s == -1) & (-D >= C4 * P)));
+}
+
+// E4' (Engine B, real-model reading): insphere_adaptive either returns insphere_exact of the SAME five points in the SAME order, or answers
+// by itself with the sign of the exact real in-sphere determinant of the differences to e (sign clause only; the margin clause is decided
+// for orient3d_adaptive above)
+static inline double rdet3(double a, double b, double c, double d, double e, double f, double g, double h, double i) { return a * (e * i - f * h) - b * (d * i - f * g) + c * (d * h - e * g); }
+__attribute__((noinline)) void h_e4_insphere_fallback(void) {
+  const CoordinateVector<> e = pt(), p = pt(), q = pt(), r = pt(), t = pt();
+  const CoordinateVector<> a(e.x() + p.x(), e.y() + p.y(), e.z() + p.z()), b(e.x() + q.x(), e.y() + q.y(), e.z() + q.z()), c(e.x() + r.x(), e.y() + r.y(), e.z() + r.z()), d(e.x() + t.x(), e.y() + t.y(), e.z() + t.z());
+  const int s = ExactGeometricTests::insphere_adaptive(a, b, c, d, e);
+  const int sx = ExactGeometricTests::insphere_exact(a, b, c, d, e);
+  const double na = p.x() * p.x() + p.y() * p.y() + p.z() * p.z(), nb = q.x() * q.x() + q.y() * q.y() + q.z() * q.z(), nc = r.x() * r.x() + r.y() * r.y() + r.z() * r.z(), nd = t.x() * t.x() + t.y() * t.y() + t.z() * t.z();
+  const double D = nd * rdet3(p.x(), p.y(), p.z(), q.x(), q.y(), q.z(), r.x(), r.y(), r.z()) - nc * rdet3(p.x(), p.y(), p.z(), q.x(), q.y(), q.z(), t.x(), t.y(), t.z())
+                 + nb * rdet3(p.x(), p.y(), p.z(), r.x(), r.y(), r.z(), t.x(), t.y(), t.z()) - na * rdet3(q.x(), q.y(), q.z(), r.x(), r.y(), r.z(), t.x(), t.y(), t.z());
+  __verif_check((s == sx) | ((s == 1) & (D > 0.)) | ((s == -1) & (D < 0.)));
+}
 }
